@@ -34,8 +34,37 @@ ASSUMPTIONS = ['what a handler is shown is observed by value (path, query, heade
 PROPS = {'Request': ('environ', '_env_get'), 'Response': ('_status_line', '_status_code', '_headers', '_cookies', 'body')}
 
 
+class RepairUnavailable(Exception):
+    pass
+
+
+def _own_store(obj):
+    """The threading.local an instance carries for itself, whatever the attribute is called."""
+    import threading
+    names = []
+    for klass in type(obj).__mro__:
+        names.extend(getattr(klass, '__slots__', ()) or ())
+    names.extend(getattr(obj, '__dict__', {}) or ())
+    import inspect
+    for n in names:
+        if n.startswith('__'):
+            continue
+        # only real storage (slots, instance dict entries): a property of the same name is one of the accessors being repaired
+        if isinstance(inspect.getattr_static(type(obj), n, None), property):
+            continue
+        try:
+            v = object.__getattribute__(obj, n)
+        except AttributeError:
+            continue
+        if isinstance(v, threading.local):
+            return v
+    raise RepairUnavailable(f'no per-instance thread-local store found on {type(obj).__name__}')
+
+
 class Repair:
-    """Counterfactual: make every ts_props property read the instance's own store."""
+    """Counterfactual: make every thread-local property of Request/Response read the instance's own store.
+    Nothing here depends on private names: the properties are the data descriptors of the two classes that are
+    plain `property` objects defined by the class itself, the store is whatever threading.local the instance holds."""
 
     def __init__(self):
         from ombott.request_pkg.request import Request
@@ -45,11 +74,14 @@ class Repair:
 
     def __enter__(self):
         for cname, cls in self.classes.items():
-            for p in PROPS[cname]:
+            props = [p for p in PROPS[cname] if isinstance(cls.__dict__.get(p), property)]
+            if not props:
+                raise RepairUnavailable(f'{cname} has none of the expected thread-local properties')
+            for p in props:
                 self.saved[(cname, p)] = cls.__dict__[p]
 
                 def mk(p):
-                    return property(lambda s: getattr(s._ts_props, p), lambda s, v: setattr(s._ts_props, p, v), lambda s: delattr(s._ts_props, p))
+                    return property(lambda s: getattr(_own_store(s), p), lambda s, v: setattr(_own_store(s), p, v), lambda s: delattr(_own_store(s), p))
                 setattr(cls, p, mk(p))
         return self
 
@@ -341,9 +373,14 @@ def single_unit(ctx, unit):
             continue
         # counterfactual repair
         ctx.count('counterfactual_reruns')
-        with Repair():
-            W2 = World()
-            devs2, _ = run_scenario(W2, steps)
+        try:
+            with Repair():
+                W2 = World()
+                devs2, _ = run_scenario(W2, steps)
+        except RepairUnavailable as e:
+            ctx.set_inconclusive(f'{name} deviates and the counterfactual repair that attributes it to the known mechanism is unavailable: {e}')
+            W = World()
+            continue
         # the default application's objects were re-created? no: World() reuses the module default app; restore handlers for W
         W = World()
         if not devs2:
@@ -408,6 +445,12 @@ def threaded_unit(ctx, unit):
                         ctx.violation(f'same-application-threads-interfere:{d0[0]}-{d0[2]}', desc, wit)
                         continue
                     ctx.count('counterfactual_reruns')
+                    try:
+                        rp = Repair().__enter__()
+                    except RepairUnavailable as e:
+                        ctx.set_inconclusive(f'threads deviate and the counterfactual repair is unavailable: {e}')
+                        return
+                    rp.__exit__()
                     with Repair():
                         W.reset()
                         res2, _ = sched.run(jobs(W), sch)
